@@ -39,12 +39,12 @@ class H:
 
     def __init__(self, name, crate, functions, clauses, tier="quick", timeout=600, strength="bounded",
                  bound="", unwindset=None, kind="contract", finding=None, solver=None, extra=None, mem_gb=12,
-                 expect_covers=True, crosscheck=False):
+                 expect_covers=True, crosscheck=False, tier_override=None):
         self.name = name              # harness fn name (unique)
         self.crate = crate
         self.functions = functions    # functions under contract
         self.clauses = clauses        # human readable contract clauses
-        self.tier = tier              # quick harnesses also run in thorough
+        self.tier = tier_override or tier   # quick harnesses also run in thorough
         self.timeout = timeout
         self.strength = strength      # proved | bounded
         self.bound = bound or ("full input domain" if strength == "proved" else "")
